@@ -8,13 +8,17 @@ Local Open Scope N_scope.
 
 Definition sstr := list N.
 
-(* decimal numeral of n: most significant digit first; fuel = number of binary digits suffices *)
-Fixpoint dec_rev (fuel : nat) (n : N) : sstr :=
-  match fuel with
-  | O => []
-  | S f => if n <? 10 then [48 + n] else (48 + n mod 10) :: dec_rev f (n / 10)
+(* decimal numeral of n, most significant digit first, as Coq's standard library writes it (Decimal.uint) *)
+Fixpoint digits_of_uint (u : Decimal.uint) : sstr :=
+  match u with
+  | Decimal.Nil => []
+  | Decimal.D0 r => 48 :: digits_of_uint r | Decimal.D1 r => 49 :: digits_of_uint r
+  | Decimal.D2 r => 50 :: digits_of_uint r | Decimal.D3 r => 51 :: digits_of_uint r
+  | Decimal.D4 r => 52 :: digits_of_uint r | Decimal.D5 r => 53 :: digits_of_uint r
+  | Decimal.D6 r => 54 :: digits_of_uint r | Decimal.D7 r => 55 :: digits_of_uint r
+  | Decimal.D8 r => 56 :: digits_of_uint r | Decimal.D9 r => 57 :: digits_of_uint r
   end.
-Definition dec (n : N) : sstr := rev (dec_rev (S (N.to_nat (N.size n))) n).
+Definition dec (n : N) : sstr := digits_of_uint (N.to_uint n).
 
 Definition char_of (s : side) (pc : piece) : N :=
   let base := match pc with Pawn => 80 | Knight => 78 | Bishop => 66 | Rook => 82 | Queen => 81 | King => 75 | NoPiece => 63 end in
